@@ -111,9 +111,10 @@ def run_slice(pid, cfg, n_cases, seed, workdir, rep, stats, profiles=None, attri
             stats["monitor_only"] += 1
         else:
             stats["compared"] += 1
-        if (v["model"] == 0 and not v["mon_model"]) or (w["model"] == 0 and not w["mon_model"] and v["model"] == 0):
-            # a model fails the monitor on its own trace where the reference semantics applies:
-            # a defect of the machinery, never of /repo
+        if v["model"] == 0 and not v["mon_model"]:
+            # the reference semantics fails the monitor on its own trace: a defect of the
+            # machinery, never of /repo (the net model reproduces the implementation's defects,
+            # so its trace may fail a monitor)
             rep.violation(case_payload(pid, case, dr, v, {"machinery_error": "monitor fails on a model's own trace"}),
                           "no-failing-input-found")
             continue
